@@ -221,12 +221,23 @@ def execute(run, tape, clock, spec, spec2, opts, enabled, nreplays, store, label
         run.probe('answered_by_fallback')
     cas = store.open()
     spy = R.SpyCassette(cas, run)
+    # histories: all replays may share one recorder, and an unrelated replay of another recording may have failed on it
+    shared = TapeRecorder(spy) if tape.draw(2) == 1 else None
+    if shared is not None:
+        run.probe('shared_recorder')
+        if tape.draw(2) == 1:
+            other = fixed_pair()
+            other.op.name = 'OpB'
+            other_rec = R.record_once(other, run, store.open(), rseed=2)
+            if other_rec.saved:
+                R.failing_replay(other, run, tape, spy, other_rec.rec_id, shared)
+                spy.calls[:] = []
     before = store.snapshot()
     summaries = []
     why = info['why']
     for n in range(nreplays):
         nviol = len(run.violations)
-        rep = R.replay_once(spec2, run, spy, rec.rec_id, overrides=overrides_of(spec2, opts), enable_recording=enabled)
+        rep = R.replay_once(spec2, run, spy, rec.rec_id, overrides=overrides_of(spec2, opts), enable_recording=enabled, recorder=shared)
         done = len(rep.svc.partial_obs) if rep.svc.partial_obs is not None else 0
         at = why[done] if done < len(why) else 'end'
         # outcome
@@ -289,7 +300,7 @@ def execute(run, tape, clock, spec, spec2, opts, enabled, nreplays, store, label
         run.probe('three_replays')
     # replay of an id that was never saved
     unknown = rec.rec_id[:-6] + 'abcdef'
-    rep = R.replay_once(spec2, run, spy, unknown, overrides=overrides_of(spec2, opts), enable_recording=enabled)
+    rep = R.replay_once(spec2, run, spy, unknown, overrides=overrides_of(spec2, opts), enable_recording=enabled, recorder=shared)
     run.probe('unknown_id')
     ok = rep.outcome.kind == 'raise' and isinstance(rep.outcome.exc, NoSuchRecording)
     if not ok or rep.env.journal or spy.mutations():
